@@ -8,6 +8,8 @@
  */
 #include "des.h"
 
+double des_tscale = 1.0, des_t0 = 0.0;
+
 #include <math.h>
 #include <stdarg.h>
 #include <unistd.h>
@@ -172,6 +174,10 @@ static void configure(void)
     for (int p = 0; p < MAXP; p++) {
         cfg_budget[p] = (int)tmp[p];
     }
+    /* the clock: durations are the numbers in the op names times tscale (0.1: sums that are not exact in binary),
+     * the simulation starts at t0 (negative: waits and waiting times straddle zero) */
+    des_tscale = strtod(vx_opt("tscale", "1"), NULL);
+    des_t0 = strtod(vx_opt("t0", "0"), NULL);
     D.nres = (int)vx_opt_int("res", 0);
     D.pool_cap = !strcmp(vx_opt("pool", "0"), "max") ? UINT64_MAX : strtoull(vx_opt("pool", "0"), NULL, 0);
     D.has_pool = D.pool_cap > 0;
@@ -659,17 +665,17 @@ static int64_t do_op(int p, const struct opdef *od)
 
     switch (od->kind) {
     case K_HOLD:
-        ret = cmb_process_hold((double)od->a);
+        ret = cmb_process_hold(des_dur(od));
         break;
     case K_TADD:
-        h = cmb_process_timer_add(me, (double)od->a, od->b ? sig_timer(p, (int)od->a) : CMB_PROCESS_TIMEOUT);
+        h = cmb_process_timer_add(me, des_dur(od), od->b ? sig_timer(p, (int)od->a) : CMB_PROCESS_TIMEOUT);
         c->out = h;
         if (D.ntimers[p] < MAXTIMERS) {
             D.timers[p][D.ntimers[p]++] = h;
         }
         break;
     case K_TSET:
-        h = cmb_process_timer_set(me, (double)od->a, od->b ? sig_timer(p, (int)od->a) : CMB_PROCESS_TIMEOUT);
+        h = cmb_process_timer_set(me, des_dur(od), od->b ? sig_timer(p, (int)od->a) : CMB_PROCESS_TIMEOUT);
         c->out = h;
         D.ntimers[p] = 0;
         D.timers[p][D.ntimers[p]++] = h;
@@ -845,7 +851,7 @@ static int64_t do_op(int p, const struct opdef *od)
     case K_EVSCHED: {
         const int k = (D.envev[0] == 0 || !cmb_event_is_scheduled(D.envev[0])) ? 0 : 1;
         D.envev[k] = cmb_event_schedule(env_action, NULL, (void *)(uintptr_t)(k + 1),
-                                        cmb_time() + (double)od->a, od->b);
+                                        cmb_time() + des_dur(od), od->b);
         c->out = D.envev[k];
         c->in = (uint64_t)k;
         break;
@@ -1181,7 +1187,7 @@ static void run_one(void)
     memset(D.residue, 0, sizeof D.residue);
     D.inert_residues = 0;
 
-    cmb_event_queue_initialize(0.0);
+    cmb_event_queue_initialize(des_t0);
     for (int r = 0; r < D.nres; r++) {
         if (!reused) { memset(&D.res[r], 0, sizeof D.res[r]); }
         cmb_resource_initialize(&D.res[r], r ? "R1" : "R0");
